@@ -313,6 +313,29 @@ func slotsCase(rt *rapid.T, prop string, lap bool) {
 		h := newH(rt, prop, sim.Options{Config: baseConfig()})
 		nontrivial := false
 		defer func() { h.finish(nontrivial) }()
+		// an outage first: more requests than there are slots get refused
+		// (ErrDown); none of them may keep a slot or an identifier
+		if rapid.IntRange(0, 2).Draw(rt, "outageFirst") == 0 {
+			h.ScriptDial(sim.DialOutcome{Kind: sim.DialErr})
+			h.Act("appStep (the connect attempt fails), then %d requests while down", 2*slotLimit+8)
+			h.appStep("failed connect")
+			for i := 0; i < 2*slotLimit+8; i++ {
+				filter := fmt.Sprintf("down%d/#", i)
+				isSub := i%3 != 0
+				c := h.Go("refused", nil, func() (<-chan error, error) {
+					if isSub {
+						return nil, h.Client.Subscribe(nil, filter)
+					}
+					return nil, h.Client.Unsubscribe(nil, filter)
+				})
+				h.MustPoll("request returning while down", func() bool { return h.IsDone(c) })
+				if !isErr(c.Err, mqtt.ErrDown) {
+					h.Failf("request %d issued after a failed connect attempt returned %v, want ErrDown", i, c.Err)
+				}
+			}
+			h.label("requests-refused-during-an-outage-first")
+			nontrivial = true
+		}
 		h.Act("appStep")
 		h.appStep("first connect")
 		n := rapid.SampledFrom([]int{3, 40, 300, 511, 512, 513, 530}).Draw(rt, "requests")
